@@ -101,6 +101,7 @@ type c19Ctx struct {
 }
 
 func (c *c19Ctx) fail(class, what, in, observed, required string) {
+	class = strings.ReplaceAll(class, " ", "-")
 	c.r.Fail(class, what, "smsrt "+in, observed, required)
 }
 
